@@ -1,6 +1,6 @@
 """Growth beyond the listed properties (DESIGN.md section 11): specifications of further behaviour of the library,
 model-checked and replayed into the code like the property checks, but *not* registered in MANIFEST.json (no
-listed property owns their verdicts).  usage: python -m harness.growth [lifecycle] [chainqueries]"""
+listed property owns their verdicts).  usage: python -m harness.growth [lifecycle] [chainqueries] [amptree]"""
 from __future__ import annotations
 
 import io
@@ -142,9 +142,223 @@ def chainqueries(nd=3, mb=2, extra=400):
     return rc
 
 
+# ---------------------------------------------------------------------------------------------- AmpTree
+_AMP_LEAF = {"a": ("K-", -321), "b": ("pi+", 211), "c": ("pi-", -211)}
+_AMP_RES = {"R1": [("rho(770)0", 113), ("rho(1450)0", 100113), ("omega(782)0", 223), ("K*(892)bar0", -313)],     # J = 1
+            "R2": [("PiPi00", 998101), ("PiPi10", 988101), ("PiPi20", 978101), ("KPi00", 998111), ("KPi10", 988111)],  # J = 0
+            "R3": [("K(2)*(1430)bar-", -325)], "M": [("D0", 421)]}
+_AMP_TAGS = {"t1": "GSpline.EFF", "t2": ["BW", "LASS.x", "Flatte"], "t3": ["kMatrix.pole.1", "kMatrix.prod.0"], "t4": ["FOCUS.Kpi", "FOCUS.I32"]}
+_PRIMES = [2, 3, 5, 7, 11, 13]
+_SPIN_IDS = {0: 211, 1: 2212, 2: 113, 3: 2224, 4: 225}
+
+
+def _tokens(text):
+    import re
+    return [t for t in re.split(r"([\[\]{},;])", text) if t != ""]
+
+
+def _amp_case(args):
+    """one abstract tree -> AmpGen text -> the real AmplitudeChain; record the queries"""
+    import random
+    from particle import Particle
+    from decaylanguage.modeling.amplitudechain import AmplitudeChain
+    from . import ampio
+    ampio.fast_lookup()
+    AmplitudeChain.cartesian = False
+    cid, tree, seed = args
+    rng = random.Random(seed)
+    used, conc, tags, primes, own_lines = set(), {}, {}, {}, []
+
+    def pick(t, path):
+        if t["name"] in _AMP_LEAF:
+            return _AMP_LEAF[t["name"]]
+        pool = [x for x in _AMP_RES[t["name"]] if x[0] not in used] or _AMP_RES[t["name"]]
+        c = rng.choice(pool)
+        used.add(c[0])
+        return c
+
+    def tag(ls):
+        if ls["fam"] == "none":
+            return None
+        if ls["tag"] not in tags:
+            v = _AMP_TAGS[ls["tag"]]
+            tags[ls["tag"]] = v if isinstance(v, str) else rng.choice(v)
+        return tags[ls["tag"]]
+
+    def render(t, path, top=False):
+        name, pid = pick(t, path)
+        conc[path] = (name, pid)
+        if not t["kids"]:
+            return name
+        tg = [x for x in (t["sf"] if t["sf"] != "-" else None, tag(t["ls"])) if x]
+        body = name + ("[" + ";".join(tg) + "]" if tg else "") + "{" + ",".join(render(k, path + str(i + 1)) for i, k in enumerate(t["kids"])) + "}"
+        if t["amp"] not in ("one", "top") and not top:
+            primes[t["amp"]] = _PRIMES[len(primes)]
+            own_lines.append(f"{body}   0 {primes[t['amp']]} 0   0 0 0")
+            return name
+        return body
+    primes["top"] = _PRIMES[0]
+    main = render(tree, "", top=True)
+    text = "EventType D0 K- pi+ pi+ pi-\n" + f"{main}   2 {primes['top']} 0   2 0 0\n" + "\n".join(own_lines) + "\n"
+    back = {}
+
+    # particle name -> abstract name (several concrete names stand for one abstract name); filled after the read,
+    # which is what loads the special K-matrix / S-wave particles into the particle table
+    def walk(t, path):
+        back[Particle.from_pdgid(conc[path][1]).name] = t["name"]
+        for i, k in enumerate(t["kids"]):
+            walk(k, path + str(i + 1))
+    rtag = {v: k for k, v in tags.items()}
+
+    def abstr(tok):
+        if tok in "[]{},;" or tok in ("S", "P", "D"):
+            return tok
+        return back.get(tok) or rtag.get(tok) or "?" + tok
+    obs = {"raised": "-"}
+    try:
+        lines, _, _, _ = AmplitudeChain.read_ampgen(text=text)
+        walk(tree, "")
+        if len(lines) != 1:
+            return {"kind": "tree", "tree": tree, "tagged": True, "obs": {"raised": f"MACHINERY {len(lines)} lines"}, "text": text}
+        ln = lines[0]
+
+        def struct(x):
+            if isinstance(x, list):
+                return {"leaf": False, "n": "-", "kids": [struct(y) for y in x]}
+            return {"leaf": True, "n": back.get(x.name, "?" + x.name), "kids": []}
+
+        def node(v):
+            lo, hi = v.L_range()
+            try:
+                e = v.ls_enum.name
+            except RuntimeError:
+                e = "error"
+            return {"lrange": [int(2 * lo), int(2 * hi)], "L": int(2 * v.L), "lsenum": e}
+        amp = ln.full_amp
+        fa, rest = [], round(amp.real)
+        for tok, pr in primes.items():
+            k = 0
+            while rest % pr == 0 and rest > 1:
+                rest //= pr
+                k += 1
+            if k:
+                fa.append([tok, k])
+        if rest != 1 or abs(amp.imag) > 1e-9 or abs(amp.real - round(amp.real)) > 1e-9:
+            fa.append(["?rest", 1])
+        obs.update(str=[abstr(t) for t in _tokens(str(ln))], structure=struct(ln.structure),
+                   vertexes=[[abstr(t) for t in _tokens(str(v))] for v in ln.vertexes], full_amp=fa,
+                   nodes=[node(v) for v in [ln] + ln.vertexes])
+    except Exception as e:  # noqa: BLE001
+        obs["raised"] = type(e).__name__ + ": " + str(e)[:200]
+    return {"kind": "tree", "tree": tree, "tagged": True, "obs": obs, "text": text}
+
+
+def _api_case(args):
+    from particle import Particle
+    from decaylanguage.modeling.decay import ModelDecay
+    cid, tree = args
+    ids = {"a": -321, "b": 211, "c": -211, "R1": 113, "R2": 9010221, "M": 421}
+    back = {Particle.from_pdgid(v).name: k for k, v in ids.items()}
+
+    def mk(t):
+        return ModelDecay(Particle.from_pdgid(ids[t["name"]]), [mk(k) for k in t["kids"]])
+
+    def struct(x):
+        if isinstance(x, list):
+            return {"leaf": False, "n": "-", "kids": [struct(y) for y in x]}
+        return {"leaf": True, "n": back.get(x.name, "?" + x.name), "kids": []}
+    d = mk(tree)
+    ab = lambda tok: tok if tok in "{}," else back.get(tok, "?" + tok)      # noqa: E731
+    obs = {"raised": "-", "str": [ab(t) for t in _tokens(str(d))], "structure": struct(d.structure),
+           "vertexes": [[ab(t) for t in _tokens(str(v))] for v in d.vertexes], "full_amp": [], "nodes": []}
+    return {"kind": "tree", "tree": tree, "tagged": False, "obs": obs, "text": str(d)}
+
+
+def _spin_case(args):
+    from particle import Particle
+    from decaylanguage.modeling.amplitudechain import AmplitudeChain
+    cid, spins = args
+    ps = [Particle.from_pdgid(_SPIN_IDS[s]) for s in spins]
+    if [int(2 * p.J) for p in ps] != list(spins):
+        return {"kind": "spins", "spins": list(spins), "obs": [-1, -1], "text": "MACHINERY reference spins"}
+    lo, hi = AmplitudeChain(ps[0], [AmplitudeChain(ps[1]), AmplitudeChain(ps[2])]).L_range()
+    return {"kind": "spins", "spins": list(spins), "obs": [int(2 * lo), int(2 * hi)], "text": str(spins)}
+
+
+def amptree(sample=2500):
+    """AmpTree.tla: lemmas / refutations by TLC; trees and spin triples replayed on the real classes and judged"""
+    import random
+    ensure_repo_on_path()
+    from .core import pmap
+    wd = tlc.new_workdir("ampt")
+    rc = 0
+    try:
+        emitted = {}
+        for mode, inv, refute in (("spins", ["LRangeAgreesWithAZeroSpin", "LRangeUpperEnd", "LRangeLowerEndNotBelow"], "LRangeIsTriangleRule"),
+                                  ("api", ["VertexesAgreeOnTwoBodyTrees", "StrLeavesAreStructureLeaves"], "VertexesAreAllVertexes"),
+                                  ("gen", ["VertexesAgreeOnTwoBodyTrees", "StrLeavesAreStructureLeaves"], None)):
+            r = tlc.run("AmpTree", tlc.cfg_text(constants=dict(Mode=mode, MaxTwoJ=4), invariants=inv), workdir=wd, timeout=900)
+            emitted[mode] = [x["v"]["v"] for x in r.by_tag("case")]
+            print(f"AmpTree {mode}: {len(emitted[mode])} cases, lemmas {inv} violated={r.violated}")
+            if r.violated:
+                rc = 1
+            if refute:
+                r2 = tlc.run("AmpTree", tlc.cfg_text(constants=dict(Mode=mode, MaxTwoJ=4), invariants=[refute]), workdir=wd,
+                             keep_records=False)
+                print(f"  {refute}: " + ("refuted (named deviation of the code)" if refute in r2.violated else "NOT refuted any more"))
+        rng = random.Random(1)
+        gen = emitted["gen"]
+        if len(gen) > sample:
+            gen = rng.sample(gen, sample)
+        cases = pmap(_amp_case, [(i, t, 13 * i + 5) for i, t in enumerate(gen)], chunk=16)
+        cases += pmap(_api_case, [(i, t) for i, t in enumerate(emitted["api"])])
+        cases += pmap(_spin_case, [(i, tuple(t)) for i, t in enumerate(emitted["spins"])])
+        mach = [c for c in cases if str(c["obs"]).find("MACHINERY") >= 0 or str(c.get("text", "")).startswith("MACHINERY")]
+        if mach:
+            print("  MACHINERY:", mach[0])
+            return 2
+        raised = [c for c in cases if c["kind"] == "tree" and c["obs"].get("raised", "-") != "-"]
+        for c in raised[:3]:
+            print("  DISAGREEMENT (raised)", c["obs"]["raised"], c["text"])
+        if raised:
+            rc = 1
+        ok = [c for c in cases if c not in raised]
+        tf = wd / "trace.json"
+        tf.write_text(json.dumps([{k: v for k, v in c.items() if k != "text"} for c in ok]))
+        rj = tlc.run("AmpTree", tlc.cfg_text(constants=dict(Mode="trace", MaxTwoJ=4)), workdir=wd, env={"TRACE_FILE": str(tf)}, timeout=3000)
+        acc = {x["tid"] for x in rj.by_tag("ACCEPT")}
+        rej = {x["tid"] for x in rj.by_tag("REJECT")}
+        if acc | rej != set(range(1, len(ok) + 1)) or acc & rej:
+            print(f"  MACHINERY: verdicts not total ({rj.stdout_path})")
+            return 2
+        print(f"amptree: {len(ok)} cases replayed ({len(gen)} AmpGen trees, {len(emitted['api'])} API trees, "
+              f"{len(emitted['spins'])} spin triples), {len(rej)} rejected")
+        fails = {}
+        for x in rj.by_tag("FAIL"):
+            fails.setdefault(x["tid"], []).append(x)
+        for t in sorted(rej)[:5]:
+            print("  DISAGREEMENT", json.dumps({"clauses": [f["clause"] for f in fails.get(t, [])], "diag": fails.get(t, [{}])[0].get("diag"),
+                                                 "text": ok[t - 1]["text"]})[:1500])
+        if rej:
+            rc = 1
+        good = next((c for i, c in enumerate(ok) if (i + 1) in acc and c["kind"] == "tree" and c["tagged"] and c["obs"]["vertexes"]), None)
+        if good:
+            m = json.loads(json.dumps({k: v for k, v in good.items() if k != "text"}))
+            m["obs"]["nodes"][0]["L"] += 2
+            tf.write_text(json.dumps([m]))
+            rs = tlc.run("AmpTree", tlc.cfg_text(constants=dict(Mode="trace", MaxTwoJ=4)), workdir=wd, env={"TRACE_FILE": str(tf)})
+            if not rs.by_tag("REJECT"):
+                print("  MACHINERY: corrupted L accepted")
+                return 2
+            print("  binding self test: corrupted L rejected")
+    finally:
+        tlc.cleanup(wd)
+    return rc
+
+
 if __name__ == "__main__":
-    which = sys.argv[1:] or ["lifecycle", "chainqueries"]
+    which = sys.argv[1:] or ["lifecycle", "chainqueries", "amptree"]
     rc = 0
     for w in which:
-        rc |= {"lifecycle": lifecycle, "chainqueries": chainqueries}[w]()
+        rc |= {"lifecycle": lifecycle, "chainqueries": chainqueries, "amptree": amptree}[w]()
     sys.exit(rc)
